@@ -326,6 +326,55 @@ def r5_lifecycle(ctx):
                 where(f))
 
 
+def r7_leave_exact(ctx):
+    """basic_leave_room removes exactly the leaving sid: a whole room (or
+    namespace) is deleted only on a path where the sid itself was removed
+    first and the container was then found empty - never as a shortcut that
+    could evict other members."""
+    m = ctx.model
+    f = m.method('BaseManager', 'basic_leave_room')
+    construct = 'BaseManager.basic_leave_room'
+    sid, ns, room = f.params[1:4]
+    t_room = 'self.rooms[%s][%s]' % (ns, room)
+    t_ns = 'self.rooms[%s]' % ns
+    run = run_function(f, m)
+    n = 0
+    for p in run.paths:
+        if not p.normal:
+            continue
+        removed = [e for e in p.events if
+                   (e.kind == 'del' and U(run.expand(e.expr)) ==
+                    '%s[%s]' % (t_room, sid)) or
+                   (e.kind == 'call' and e.callee() == 'pop' and
+                    U(run.expand(e.expr)).startswith(
+                        '%s.pop(%s' % (t_room, sid)))]
+        for e in p.events:
+            if e.kind != 'del':
+                continue
+            tgt = U(run.expand(e.expr))
+            if tgt not in (t_room, t_ns):
+                continue
+            n += 1
+            empt = [c for c in p.conds if c.at <= e.idx and (
+                (c.pol and U(run.expand(c.atom)) == 'len(%s) == 0' % tgt) or
+                (not c.pol and U(run.expand(c.atom)) in (
+                    tgt, 'len(%s)' % tgt, '0 < len(%s)' % tgt)))]
+            ok = bool(removed) and removed[0].idx < e.idx and bool(empt) \
+                and empt[-1].at > removed[0].idx
+            ctx.check(ok, construct, '%s is deleted only after the leaving '
+                      'sid was removed and the container was then found '
+                      'empty' % tgt, key='evicts ' + ('room' if tgt == t_room
+                                                      else 'namespace'),
+                      reason='%s can be deleted %s: members other than the '
+                      'leaving sid would be evicted' % (
+                          tgt, 'without the sid having been removed first'
+                          if not removed else 'without an emptiness test '
+                          'after the removal'), where=where(f, e.node))
+    if not n:
+        ctx.bad(construct, 'no-collection', 'rooms are never collected',
+                where(f))
+
+
 def r6_accumulator(ctx):
     m = ctx.model
     f = m.method('BaseManager', 'get_participants')
@@ -395,6 +444,10 @@ def run(ctx):
     ctx.rule('C03.R6', 'recipients accumulated in a mapping keyed by sid',
              floor=3)
     r6_accumulator(ctx)
+    ctx.rule('C03.R7', 'leaving a room removes exactly the leaving sid; '
+             'containers are deleted only when found empty afterwards',
+             floor=2)
+    r7_leave_exact(ctx)
     ctx.assume('bidict keeps sid <-> transport id one-to-one (trusted)')
     ctx.assume('the exact recipient set over all membership histories is '
                'NOT decided')
